@@ -134,6 +134,28 @@ func init() {
 		"fmt.Println":           func(fr *frame, a []value) (value, bool) { return tuple{0, iface{}}, true },
 		"fmt.Print":             func(fr *frame, a []value) (value, bool) { return tuple{0, iface{}}, true },
 		"time.Now":              func(fr *frame, a []value) (value, bool) { return zero(fr.fn.Signature.Results().At(0).Type()), true },
+		// timers never fire inside a bounded scenario: NewTimer/After hand out a channel
+		// nobody sends on (the 10 s "still waiting" timers of please only log)
+		"time.NewTimer": func(fr *frame, a []value) (value, bool) {
+			fr.i.run.stubs["time.NewTimer (never fires)"]++
+			pt := fr.fn.Signature.Results().At(0).Type().Underlying().(*types.Pointer)
+			st := pt.Elem().Underlying().(*types.Struct)
+			v := zero(pt.Elem()).(structure)
+			for k := 0; k < st.NumFields(); k++ {
+				if st.Field(k).Name() == "C" {
+					v[k] = makeChan(fr, 1)
+				}
+			}
+			var cell value = v
+			return &cell, true
+		},
+		"time.After": func(fr *frame, a []value) (value, bool) {
+			fr.i.run.stubs["time.After (never fires)"]++
+			return makeChan(fr, 1), true
+		},
+		"(*time.Timer).Stop":  func(fr *frame, a []value) (value, bool) { return true, true },
+		"(*time.Timer).Reset": func(fr *frame, a []value) (value, bool) { return true, true },
+		"time.Since":          func(fr *frame, a []value) (value, bool) { return int64(0), true },
 		"time.Sleep":            func(fr *frame, a []value) (value, bool) { fr.i.run.scheduler().yield("sleep"); return nil, true },
 		"github.com/cespare/xxhash/v2.Sum64String": func(fr *frame, a []value) (value, bool) {
 			return xxhash.Sum64String(fr.i.run.concString(a[0], "xxhash")), true
@@ -736,7 +758,7 @@ func registerAtomics(T string) {
 	nativeIntrinsics[pre+"CompareAndSwap"+T] = func(fr *frame, a []value) (value, bool) {
 		fr.i.run.scheduler().yield("atomic-cas")
 		old := get(a[0])
-		if fr.i.run.concBool(binop(fr, token.EQL, nil, old, a[1]), "cas") {
+		if fr.i.run.decide(fr.i.run.eqTerm(nil, old, a[1]), "cas") {
 			*a[0].(*value) = a[2]
 			return true, true
 		}
